@@ -100,4 +100,56 @@ example : ¬ CrcOk (xorBytes goodFrame [0x01, 0, 0, 0, 0, 0, 0, 0x80]) :=
   crc_detects_double goodFrame [0x01, 0, 0, 0, 0, 0, 0, 0x80] (by decide +kernel) rfl (by decide) 0 63
     (by decide) (by decide) (by decide +kernel)
 
+/-! ### every bit position, every pair of positions: concrete error patterns
+
+`bitError n p` is the `n`-byte pattern with only transmitted bit `p` set. -/
+
+/-- flipping any one bit of a valid frame (any length) is detected -/
+theorem crc_detects_single_flip (F : Bytes) (hF : CrcOk F) (p : Nat) (hp : p < 8 * F.length) :
+    ¬ CrcOk (xorBytes F (bitError F.length p)) := by
+  obtain ⟨p', hp', hE⟩ := singleBit_bitError F.length p hp
+  exact crc_detects_single F _ hF (by simp) p' hp' hE
+
+/-- flipping any two distinct bits of a valid frame of at most 256 bytes is detected -/
+theorem crc_detects_double_flip (F : Bytes) (hF : CrcOk F) (h256 : F.length ≤ 256) (p q : Nat)
+    (hpq : p < q) (hq : q < 8 * F.length) :
+    ¬ CrcOk (xorBytes F (xorBytes (bitError F.length p) (bitError F.length q))) := by
+  obtain ⟨p', q', hpq', hq', hE⟩ := doubleBit_bitError F.length p q hpq hq
+  exact crc_detects_double F _ hF (by simp) h256 p' q' hpq' hq' hE
+
+example : xorBytes goodFrame (bitError 8 22) = [0x11, 0x01, 0x40, 0x01, 0x00, 0x02, 0xEE, 0x9B] := by
+  decide +kernel
+example : xorBytes goodFrame (xorBytes (bitError 8 0) (bitError 8 63))
+    = [0x10, 0x01, 0x00, 0x01, 0x00, 0x02, 0xEE, 0x1B] := by decide +kernel
+
+/-! ### the extractor itself
+
+`Rtu.extractFrame F (F.length - 3)` is `rtu::extract_frame` asked for the frame that occupies all of
+`F` (PDU length = length − 3).  It returns a frame exactly when `3 ≤ F.length` and `CrcOk F`
+(`Crc.extract_full`, `Crc.extract_full_ok`); the corrupted string has the same length, so "the
+full-length frame at the original position" is `extractFrame (F ⊕ E) (F.length - 3)`. -/
+
+/-- the combined statement of DESIGN.md §6 C08: a frame accepted at full length, hit by a single-bit
+    error, a burst of at most 16 bits, or (length ≤ 256) a double-bit error, is rejected with
+    `Error::Crc` at full length -/
+theorem crc_detects (F E : Bytes) (fr : Rtu.Frame)
+    (hF : Rtu.extractFrame F (F.length - 3) = .ok (some fr)) (hlen : E.length = F.length)
+    (hE : SingleBit E ∨ Burst16 E ∨ (DoubleBit E ∧ F.length ≤ 256)) :
+    ∃ e a, Rtu.extractFrame (xorBytes F E) (F.length - 3) = .err (.crc e a) := by
+  obtain ⟨h3, hlt, hok⟩ := extract_full_ok F fr hF
+  have hl : (xorBytes F E).length = F.length := by simp [hlen]
+  have hbad : ¬ CrcOk (xorBytes F E) := by
+    rcases hE with ⟨p, hp, h1⟩ | ⟨hex, p, hwin⟩ | ⟨⟨p, q, hpq, hq, h2⟩, h256⟩
+    · exact crc_detects_single F E hok hlen p hp h1
+    · exact crc_detects_burst F E hok hlen p hex hwin
+    · exact crc_detects_double F E hok hlen h256 p q hpq hq h2
+  have := (extract_full (xorBytes F E) (by omega) (by omega)).2 hbad
+  rw [hl] at this
+  exact this
+
+example : Rtu.extractFrame goodFrame (goodFrame.length - 3)
+    = .ok (some { slave := 0x11, pdu := [0x01, 0x00, 0x01, 0x00, 0x02] }) := by decide +kernel
+example : Rtu.extractFrame (xorBytes goodFrame (bitError 8 22)) (goodFrame.length - 3)
+    = .err (.crc 0xEE9B 0xFB5B) := by decide +kernel
+
 end Modbus.C08Crc
